@@ -168,8 +168,10 @@ impl<'db> RewriteNode<'db> {
 
             // Read the name
             let mut name = String::new();
+            let mut closed = false;
             for c in chars.by_ref() {
                 if c == '$' {
+                    closed = true;
                     break;
                 }
                 name.push(c);
@@ -181,6 +183,16 @@ impl<'db> RewriteNode<'db> {
                 pending_text.push('$');
                 continue;
             }
+            let Some(patch) = patches.get(&name) else {
+                // Not a placeholder of this template: `code` may contain text taken from the user's
+                // code, in which `$` is an ordinary token. Keep it as it is.
+                pending_text.push('$');
+                pending_text.push_str(&name);
+                if closed {
+                    pending_text.push('$');
+                }
+                continue;
+            };
             // If the string wasn't empty and there is some pending text, first flush it as a text
             // child.
             if !pending_text.is_empty() {
@@ -188,9 +200,7 @@ impl<'db> RewriteNode<'db> {
                 pending_text.clear();
             }
             // Replace the substring with the relevant rewrite node.
-            children.push(
-                patches.get(&name).cloned().unwrap_or_else(|| panic!("No patch named {name}.")),
-            );
+            children.push(patch.clone());
         }
         // Flush the remaining text as a text child.
         if !pending_text.is_empty() {
